@@ -395,3 +395,11 @@ def run(ctx, rep):
     clause_state_writes(prog, rep)
     clause_redelivery_readonly(prog, rep)
     clause_resave_evicts_nothing(prog, rep)
+    # a re-delivered event of an epoch already left (the proposal a commit covered, an applied commit) reaches the wrong-epoch arm; the
+    # rollback decision made there on the wrapper's timestamp and id alone is F16 (shared with C05 / C01)
+    rep.clause("C07.9 a rollback is decided only for an authenticated competing commit — never for a re-delivered event of a left epoch (known finding F16)")
+    import os
+    import sys
+    sys.path.insert(0, os.path.dirname(os.path.abspath(__file__)))
+    import c05
+    c05.clause_rollback_authenticated(prog, rep, "rollback-arm")
